@@ -602,7 +602,15 @@ def part_a(chk: C.Check, thorough: bool) -> list[dict[str, Any]]:
             for got, want, where in ((inner, want_in, wheres[0]), (outer, want_out, wheres[1])):
                 stats["lookups"] += 1
                 g = ("U",) if got in (("N",), ("T",)) else got
-                if g != want:
+                if (g != want and shape == "extends_block" and where == wheres[0] and "B" in S and "L" in S
+                        and g == layer_vals(vals)["L"]):
+                    # known: what the block assigned wins over the with-binding that encloses the block
+                    stats["block_assign_shadowed_enclosing_binding"] = stats.get("block_assign_shadowed_enclosing_binding", 0) + 1
+                    chk.finding("block-assign-shadows-enclosing-binding-through-extends",
+                                "in a {% block %} rendered through {% extends %}, a variable assigned in the block is found before the "
+                                f"with / for binding that encloses the block tag (layers {S}: {name} resolved to {got}, the documented "
+                                f"order gives {want})", replay)
+                elif g != want:
                     chk.finding("precedence:" + where, f"layers {S}{' values ' + str(replay['layer_values']) if vals else ''}: {name} resolved to {got}, the documented order gives {want} {where}", replay)
                 elif want in FALSY:
                     stats["falsy_value_won"][FALSY_NAME[want]] = stats["falsy_value_won"].get(FALSY_NAME[want], 0) + 1
